@@ -132,3 +132,75 @@ package destination
 //@        || (conn == nil && dest.Spool && sent(dest.spool.InRT) == old(sent(dest.spool.InRT)) && dest.numDropSlowSpool.count == old(dest.numDropSlowSpool.count) + 1)
 //@        || (conn == nil && !dest.Spool && dest.numDropNoConnNoSpool.count == old(dest.numDropNoConnNoSpool.count) + 1))
 //@     ensures[conn_down_no_spool_counts; C06] conn == nil && !dest.Spool ==> dest.numDropNoConnNoSpool.count == old(dest.numDropNoConnNoSpool.count) + 1
+
+// ---------------------------------------------------------------- conn.go: framing of the socket stream (C05)
+// linesOf(log): the lines received so far, each followed by one newline, in order
+//@ smt (define-fun-rec linesOf ((l Log)) Bytes (ite ((_ is lnil) l) bempty (bconcat (bconcat (linesOf (lrest l)) (eBc (llast l))) (blit "\n"))))
+//@ spec connBufOK(c *Conn) bool := c.buffered != nil && c.buffered.rep() && len(newLine) == 1 && newLine[..] == "\n" && newLine.arr != c.buffered.buf.arr
+//@      && c.numErrWrite != nil && c.numErrTruncated != nil && c.numDropBadPickle != nil
+//@
+// ---------------------------------------------------------------- metric.go / pickle.go (C16)
+//@ smt (declare-fun pickleOf (Bytes Int F64) Bytes)
+//@ func ParseDataPoint(buf []byte) (dp *Datapoint, err error)
+//@   property C16
+//@   ensures[three_fields; C16] err == nil ==> dp != nil && nfields(buf[..]) == 3 && dp.Name == field(buf[..], 0) && dp.Val == parseFloat(field(buf[..], 1)) && dp.Time == parseUint(field(buf[..], 2))
+//@   ensures[rejects_other_shapes; C16] nfields(buf[..]) != 3 ==> err != nil
+//@   ensures[fresh] err == nil ==> fresh(dp)
+//@
+//@ // the pickle body comes from the ogórek encoder (external); the framing is checked by the bounded stand-in
+//@ func Pickle(dp *Datapoint) []byte
+//@   property C16
+//@   trusted
+//@   fresh
+//@   requires dp != nil
+//@   ensures[length_prefixed; C16; bounded] result[..] == be32(len(pickleOf(dp.Name, dp.Time, dp.Val))) ++ pickleOf(dp.Name, dp.Time, dp.Val)
+//@   bounded TestBounded_pickleFrame "60 lines (names with dots/tags, float spellings 1, 1.5, 1e3, -0.25, integer timestamps up to 2^32-1): the frame is a 4-byte big-endian length followed by a pickle that CPython decodes to [(name, (timestamp, value))] with the same name, integer timestamp and float value"
+//@
+//@ func (c *Conn) Write(buf []byte) (written int, err error)
+//@   property C05,C16
+//@   requires connBufOK(c) && buf.arr != c.buffered.buf.arr
+//@   modifies c.buffered.n, c.buffered.err, c.buffered.buf[..], c.buffered.wr.stream, allof("ghost:metrics.Counter.count")
+//@   ensures[pickle_mode_frames; C05,C16] c.pickle && err == nil ==> (c.buffered.view() == old(c.buffered.view())
+//@        || (exists nm bytes, ts int, v f64 :: c.buffered.view() == old(c.buffered.view()) ++ be32(len(pickleOf(nm, ts, v))) ++ pickleOf(nm, ts, v)))
+//@   ensures[rep]       connBufOK(c) && c.buffered == old(c.buffered) && c.pickle == old(c.pickle)
+//@   ensures[whole_line_one_newline; C05] !c.pickle && err == nil ==> c.buffered.view() == old(c.buffered.view()) ++ buf[..] ++ "\n"
+//@   ensures[buf_kept]  buf[..] == old(buf[..])
+//@
+//@ // ---------------------------------------------------------------- keepsafe.go (C07): what may have to be re-sent
+//@ func (k *keepSafe) Add(buf []byte)
+//@   property C07
+//@   requires !k.Mutex.held && (k.safeOld.arr != k.safeRecent.arr || k.safeOld.arr == 0)
+//@   modifies k.safeRecent, k.Mutex.held, k.safeRecent[..]
+//@   ensures[appended; C07] len(k.safeRecent) == old(len(k.safeRecent)) + 1 && k.safeRecent[old(len(k.safeRecent))] == buf
+//@        && (forall j int :: 0 <= j && j < old(len(k.safeRecent)) ==> k.safeRecent[j] == old(k.safeRecent[j]))
+//@   ensures[old_kept; C07] k.safeOld == old(k.safeOld) && (forall j int :: 0 <= j && j < len(k.safeOld) ==> k.safeOld[j] == old(k.safeOld[j]))
+//@   ensures[unlocked] !k.Mutex.held && k.closed == old(k.closed) && k.initialCap == old(k.initialCap)
+//@
+//@ func (k *keepSafe) GetAll() [][]byte
+//@   property C07
+//@   requires !k.Mutex.held && k.initialCap >= 0
+//@   modifies *
+//@   ensures[everything_kept; C07] len(result) == old(len(k.safeOld)) + old(len(k.safeRecent))
+//@        && (forall j int :: 0 <= j && j < old(len(k.safeOld)) ==> result[j] == old(k.safeOld[j]))
+//@        && (forall j int :: 0 <= j && j < old(len(k.safeRecent)) ==> result[old(len(k.safeOld)) + j] == old(k.safeRecent[j]))
+//@   ensures[emptied; C07] len(k.safeOld) == 0 && len(k.safeRecent) == 0 && !k.Mutex.held
+//@
+//@ // ---------------------------------------------------------------- conn.go: the connection's event loop (C05, C07)
+//@ func (c *Conn) close()
+//@   trusted
+//@   modifies *
+//@   ensures c.buffered == old(c.buffered) && c.keepSafe == old(c.keepSafe) && c.In == old(c.In)
+//@
+//@ func (c *Conn) HandleData()
+//@   property C05,C07,C14
+//@   requires connBufOK(c) && c.numErrFlush != nil && c.periodFlush > 0 && c.In != nil && c.keepSafe != nil && !c.keepSafe.Mutex.held && c.flush != nil && c.flushErr != nil && !closed(c.flushErr) && c.shutdown != nil
+//@   requires recvd(c.In) == lnil && c.buffered.view() == "" && !c.pickle && c.numOut != nil
+//@   modifies *
+//@   loop 1:
+//@     invariant[wf] connBufOK(c) && c.In != nil && c.keepSafe != nil && !c.keepSafe.Mutex.held && c.flush != nil && c.flushErr != nil && c.shutdown != nil && !c.pickle && c.numOut != nil && c.numErrFlush != nil && tickerFlush != nil && tickerFlush.C != nil
+//@     // not yet discharged (recursive spec function + concatenation): c.buffered.view() == linesOf(recvd(c.In))
+//@     assumed_invariant[channel_ownership] !closed(c.In) && !closed(c.flushErr)
+//@     assumed_invariant[keepsafe_buffers] c.keepSafe.safeOld.arr != c.keepSafe.safeRecent.arr || c.keepSafe.safeOld.arr == 0
+//@   assume_recv "<-c.In": $recv.arr != c.buffered.buf.arr
+//@   branch "<-c.In":
+//@     ensures[kept_safe_before_write; C07] exists b elem :: recvd(c.In) == old(recvd(c.In)) ++ b && len(c.keepSafe.safeRecent) == old(len(c.keepSafe.safeRecent)) + 1
